@@ -344,4 +344,231 @@ Proof.
   repeat split; reflexivity.
 Qed.
 
+(* ================================================================== the invariant *)
+Definition pc_state_ok (p : pcs) (x : rstate) : bool :=
+  match p with
+  | PcNone | PcNotStarted | PcPermit0 | PcDone _ => match x with Idle => true | _ => false end
+  | PcSleep0 | PcCmd _ | PcFinalSleep _ => live_state x
+  | PcPaused => match x with Paused | Aborting | Stopping | Halting => true | _ => false end
+  end.
+(* pcs from which [task_step] enters [drive] *)
+Definition drv_pc (p : pcs) : bool :=
+  match p with PcNotStarted | PcPermit0 | PcSleep0 | PcPaused | PcCmd _ => true | _ => false end.
+(* pcs at which the blocking event may be set *)
+Definition blk_pc (p : pcs) : bool :=
+  match p with PcNone | PcPaused | PcDone _ => true | _ => false end.
+
+(* "interrupted, and the only recorded reason is a plain pause request" *)
+Definition PR (s : st) : Prop :=
+  interrupted s = true /\ icause s = Some CzPause /\ late_pause s = false /\ intr_err s = false.
+
+(* a device's pause() hook raises one of the exceptions `_run` treats as control flow *)
+Definition pause_hook_ctl : Prop := exists x, hook_raises MPause x /\ ctl_exn x = true.
+
+Section WithEscape.
+(* [G] collects the circumstances under which the ghost clause (I6) is not claimed:
+   instantiated at the end with "a pause hook raises a control exception or the schedule
+   releases the run permit of a paused, still interrupted engine". *)
+Variable G : Prop.
+
+Definition stack_c (c : ctl) (s : st) : Prop :=
+  match c with
+  | CTop | CBody | CAfterSleep => List.length (resps s) = List.length (plans s)
+  | CProcess _ => S (List.length (resps s)) = List.length (plans s)
+  | CContinue p _ | CCancelled p =>
+      if p then S (List.length (resps s)) = List.length (plans s)
+      else List.length (resps s) = List.length (plans s)
+  | CExit _ | CFinalize _ _ => True
+  end.
+Definition permit_c (c : ctl) (s : st) : Prop :=
+  match c with CBody | CAfterSleep | CProcess _ => permit s = true | _ => True end.
+Definition stash_c (c : ctl) (s : st) : Prop :=
+  match c with CProcess _ => stashed s = None | _ => True end.
+Definition cancel_c (c : ctl) (s : st) : Prop :=
+  match c with
+  | CExit _ | CFinalize _ _ => True
+  | _ => must_cancel s = true ->
+         permit s = true /\
+         ((state s = Pausing /\ stashed s = None /\
+           match c with CContinue _ _ | CTop | CBody => True | _ => False end)
+          \/ state s = Aborting)
+  end.
+Definition pr_c (c : ctl) (s : st) : Prop :=
+  G \/ (PR s ->
+        match c with
+        | CTop | CContinue _ _ =>
+            state s = Pausing /\
+            ((must_cancel s = true /\ stashed s = None) \/ (must_cancel s = false /\ permit s = false))
+        | CBody => state s = Pausing /\ must_cancel s = true /\ stashed s = None
+        | CCancelled _ => state s = Pausing
+        | CExit (XExn x) => ctl_exn x = false
+        | CFinalize _ (Some e) => e <> ECancelled
+        | _ => False
+        end).
+
+(* invariant of the straight-line interpreter, indexed by the control point *)
+Definition DInv (c : ctl) (s : st) : Prop :=
+  live_state (state s) = true /\ blocking s = false /\ drv_pc (pc s) = true /\
+  stack_c c s /\ permit_c c s /\ stash_c c s /\ cancel_c c s /\
+  (state s = Pausing -> interrupted s = true) /\
+  (interrupted s = true -> icause s <> None) /\
+  pr_c c s.
+
+Definition stack_a (s : st) : Prop :=
+  match pc s with
+  | PcNotStarted | PcPermit0 | PcSleep0 | PcPaused => List.length (resps s) = List.length (plans s)
+  | PcCmd _ => S (List.length (resps s)) = List.length (plans s)
+  | _ => True
+  end.
+Definition R6 (s : st) : Prop :=
+  PR s ->
+  (state s = Pausing /\ must_cancel s = true /\ match pc s with PcSleep0 | PcCmd _ => True | _ => False end)
+  \/ (state s = Paused /\ permit s = false)
+  \/ match pc s with PcDone r => normal_done r = false | _ => False end.
+
+(* invariant at the await points *)
+Definition Inv (s : st) : Prop :=
+  pc_state_ok (pc s) (state s) = true /\
+  (blocking s = true -> blk_pc (pc s) = true) /\
+  (pc s = PcPaused -> must_cancel s = false /\ resumable s = true /\ (blocking s = true -> permit s = false)) /\
+  stack_a s /\
+  match pc s with PcSleep0 | PcCmd _ => permit s = true | _ => True end /\
+  match pc s with PcCmd _ => stashed s = None | _ => True end /\
+  (state s = Idle -> bundlers s = []) /\
+  (state s = Pausing -> interrupted s = true) /\
+  (interrupted s = true -> icause s <> None) /\
+  (G \/ R6 s).
+
+(* the fuel of [drive] ran out: reported as OBad 1, the engine model is stuck from then on *)
+Definition OOF (s : st) (o : list obs) : Prop :=
+  pc s = PcNone /\ state s <> Idle /\ In (OBad 1) o.
+
+Lemma set_state_inv s x s' o :
+  set_state s x = Some (s', o) -> allowed (state s) x = true /\ s' = RE.set_state_raw P D s x.
+Proof. unfold RE.set_state. destruct (allowed (state s) x); intros H; inversion H; auto. Qed.
+Lemma set_state_none s x : set_state s x = None -> allowed (state s) x = false.
+Proof. unfold RE.set_state. destruct (allowed (state s) x); intros H; [discriminate H | reflexivity]. Qed.
+
+Hypothesis HG : pause_hook_ctl -> G.
+
+Ltac open_inv :=
+  unfold DInv, Inv, stack_c, permit_c, stash_c, cancel_c, pr_c, stack_a, R6, PR in *.
+
+Ltac rw_proj :=
+  repeat match goal with
+         | H : ?f ?x = _ |- _ =>
+             is_var x; match type of x with RE.st _ _ => idtac end;
+             let v := fresh "v" in set (v := f x) in *; clearbody v; subst v
+         | H : _ = ?f ?x |- _ =>
+             is_var x; match type of x with RE.st _ _ => idtac end;
+             let v := fresh "v" in set (v := f x) in *; clearbody v; subst v
+         end.
+Ltac simp_fn := cbn [live_state term_state pc_state_ok drv_pc blk_pc ctl_exn normal_done List.length List.tl] in *.
+Ltac norm_imp := repeat match goal with H : ?a = ?a -> _ |- _ => specialize (H eq_refl) end.
+Ltac fin1 := intuition (subst; try assumption; try reflexivity; try discriminate; try congruence; try lia).
+Ltac fin0 :=
+  try solve [ assumption | reflexivity | discriminate | congruence | lia | fin1
+            | match goal with
+              | |- ?x = false => destruct x eqn:?; [exfalso | reflexivity]
+              | |- ?x = true => destruct x eqn:?; [reflexivity | exfalso]
+              end; fin1 ].
+Ltac bool_norm :=
+  repeat match goal with
+         | H : negb _ = true |- _ => apply negb_true_iff in H
+         | H : negb _ = false |- _ => apply negb_false_iff in H
+         | H : _ && _ = true |- _ => apply andb_true_iff in H; destruct H
+         | H : _ || _ = false |- _ => apply orb_false_iff in H; destruct H
+         | H : rstate_eqb _ _ = true |- _ => apply rstate_eqb_eq in H
+         | H : rstate_eqb _ _ = false |- _ => apply rstate_eqb_neq in H
+         | H : True |- _ => clear H
+         end.
+Ltac fin := open_inv; unfold samecb, samec, same, RE.resumable in *; simp_st; split_ands; bool_norm;
+            repeat split; intros; simp_st; rw_proj; simp_fn; fin0.
+Ltac ev_eqb_in H :=
+  repeat match type of H with
+         | context [rstate_eqb ?a ?b] =>
+             let v := eval vm_compute in (rstate_eqb a b) in
+             match v with true => idtac | false => idtac end;
+             change (rstate_eqb a b) with v in H
+         end;
+  cbn [orb andb negb] in H.
+Ltac eqb_cases H :=
+  repeat match type of H with
+         | context [rstate_eqb (state ?s) ?b] =>
+             let E := fresh "Eqb" in
+             destruct (rstate_eqb (state s) b) eqn:E;
+             [ apply rstate_eqb_eq in E; try rewrite E in H; ev_eqb_in H
+             | apply rstate_eqb_neq in E; cbn [orb andb negb] in H ]
+         end.
+Ltac norm :=
+  repeat match goal with
+         | H : set_state _ _ = Some (_, _) |- _ =>
+             let H1 := fresh "Hal" in apply set_state_inv in H; destruct H as [H1 H]; subst
+         | H : set_state _ _ = None |- _ => apply set_state_none in H
+         | H : Some _ = Some _ |- _ => inversion H; subst; clear H
+         | H : (_, _) = (_, _) |- _ => inversion H; subst; clear H
+         end.
+Ltac leaf IH :=
+  norm; frames;
+  first [ match goal with H : drive _ _ _ _ = _ |- _ => eapply IH; [|exact H]; clear IH H end
+        | clear IH; left ];
+  fin.
+
+Lemma drive_inv fuel : forall s c os s' o,
+  DInv c s -> drive fuel s c os = (s', o) -> Inv s' \/ OOF s' o.
+Proof.
+  induction fuel as [|fuel IH]; intros s c os s' o HD H; cbn [RE.drive] in H.
+  { inversion H; subst. right. unfold OOF. simp_st. destruct HD as (D1 & _).
+    repeat split; [ intros E; rewrite E in D1; discriminate D1 | apply in_or_app; right; left; reflexivity ]. }
+  destruct c.
+  2:{ (* CBody *)
+      repeat (bm_hyp H); leaf IH. }
+  { (* CTop *)
+    eqb_cases H; repeat (bm_hyp H); try (ev_eqb_in H); leaf IH.
+    destruct (ctl_exn e) eqn:Ec;
+      [ left; apply HG; exists e; split; [apply Hhook; reflexivity | exact Ec]
+      | right; intros; reflexivity ]. }
+  { (* CAfterSleep *)
+    repeat (bm_hyp H); leaf IH.
+    match goal with
+    | H : match stashed ?s with _ => _ end = None |- _ => destruct (stashed s); [discriminate H | reflexivity]
+    end. }
+  { (* CProcess *)
+    set (s1 := match mobj m with Some _ => _ | None => _ end) in H.
+    set (s2 := match cache s1 with Some _ => _ | None => _ end) in H.
+    assert (H2 : same s s2).
+    { subst s2 s1. repeat match goal with |- context [match ?x with _ => _ end] => destruct x end; same_tac. }
+    destruct (match mcmd m with
+              | CStartSuspender sid pre post => exec_start_suspender s2 sid pre post
+              | _ => exec_cmd s2 m
+              end) as [[s3 cr] o3] eqn:Ex.
+    clearbody s2.
+    assert (Hc : (same s2 s3 \/ exists f, same (RE.push_frame P D s2 f) s3) \/
+                 (exists e, pause_acc s2 s3 e) /\ exists r, cr = Done r).
+    { destruct (mcmd m) eqn:Em;
+        try (left; left; eapply exec_cmd_same; [|exact Ex]; intros d' Hd'; rewrite Em in Hd'; discriminate Hd').
+      - destruct (exec_cmd_pause _ _ _ _ _ _ Em Ex) as (e & o' & Hrp & Hr).
+        destruct (request_pause_spec _ _ _ _ _ Hrp) as [Hs|Hs].
+        + left; left. destruct Hs as [[Hs _] _]. exact Hs.
+        + right. split; [exists e; exact Hs | exact Hr].
+      - left. eapply exec_start_suspender_spec. exact Ex. }
+    clear Ex.
+    destruct Hc as [[Hc|[f Hc]]|[[e Hc] [r Hr]]].
+    1,2: destruct cr; leaf IH.
+    subst cr. unfold pause_acc in Hc. leaf IH.
+    destruct (pc s); simp_fn; try discriminate; fin0. }
+  { (* CContinue *) destruct popped; leaf IH. }
+  { (* CCancelled *)
+    repeat (bm_hyp H); leaf IH.
+    destruct (must_cancel s); norm_imp; fin0. }
+  { (* CExit *)
+    repeat (bm_hyp H); leaf IH. }
+  { (* CFinalize *)
+    destruct (finalize s r pending) as [s1 o1] eqn:Ef. inversion H; subst; clear H IH.
+    apply finalize_spec in Ef; [|apply allowed_to_idle; left; apply HD].
+    left. unfold final_res in Ef. fin.
+    destruct pending as [e|]; [destruct e|]; simp_fn; fin0. }
+Qed.
+
+End WithEscape.
 End Inv.
